@@ -245,7 +245,25 @@ def run(tier, seed):
                 ops.append([1, im(k)])
                 want.append(None)
                 ck.case((trial, step), kind='restore')
-            elif r_ < 0.74:
+            elif r_ < 0.68 and w.keypairs:
+                # a restore whose precondition does not hold (key not handed out at the moment: restored twice, or never
+                # handed out): refused, the wallet stays what it is
+                cands = [k for k in w.keypairs if k not in w.public_key_annotations]
+                if not cands:
+                    continue
+                k = rng.choice(cands)
+                st0 = wallet_state(w)
+                try:
+                    w.restore_annotated_public_key(k, 'x')
+                except Exception:
+                    pass
+                ops.append([1, im(k)])
+                want.append(None)
+                ck.case((trial, step), kind='restore-not-handed-out')
+                if wallet_state(w) != st0:
+                    ck.violation('invalid-restore-changes-wallet', 'restoring a key that is not handed out changed the wallet '
+                                 '(unused keys %d -> %d)' % (len(st0[1]), len(w.unused_public_keys)), {'trial': trial, 'step': step})
+            elif r_ < 0.76:
                 w.generate_key()
                 k = list(w.keypairs)[-1]
                 ops.append([2, im(k)])
@@ -256,6 +274,37 @@ def run(tier, seed):
                 old_disk = None
                 if os.path.exists('wallet.json'):
                     old_disk = open('wallet.json', 'rb').read()
+                if step % 3 == 0 and w.public_key_annotations:
+                    # an earlier save of a LONGER wallet was killed after its side file was written, before the switch-over:
+                    # whatever it left behind must not leak into this save
+                    class Killed(BaseException):
+                        pass
+
+                    class KillOs(OsProxy):
+                        def replace(self, src, dst):
+                            raise Killed()
+
+                        def rename(self, src, dst):
+                            raise Killed()
+                    k_long = next(iter(w.public_key_annotations))
+                    keep_ann = w.public_key_annotations[k_long]
+                    w.public_key_annotations[k_long] = 'long annotation ' * 60
+                    sv = (W.__dict__.get('open'), W.os)
+                    W.os = KillOs(Tracer('wallet.json'))
+                    import shutil as _sh
+                    sv_move = _sh.move
+                    try:
+                        def _killed_move(*a, **k):
+                            raise Killed()
+                        _sh.move = _killed_move
+                        try:
+                            W.save_wallet(w)
+                        except Killed:
+                            ck.count('save/killed-before-switch-over')
+                    finally:
+                        _sh.move = sv_move
+                        W.os = sv[1]
+                        w.public_key_annotations[k_long] = keep_ann
                 tr = Tracer('wallet.json')
                 saved = (W.__dict__.get('open'), W.os)
                 W.open = tr.open
@@ -304,8 +353,14 @@ def run(tier, seed):
                     ck.violation('save-incomplete', 'the last step of a save does not leave the new wallet in place', rp)
                 reqs.append(('fs_prefixes', [], [[0] if old_disk is None else [1, old_disk], [new_disk[:7], new_disk[7:]]]))
                 wants.append(('fs', [c for c in ([old_disk] if old_disk != new_disk else []) + [new_disk]], rp))
-                with open('wallet.json', 'r') as f:
-                    w2 = Wallet.load(f)
+                try:
+                    with open('wallet.json', 'r') as f:
+                        w2 = Wallet.load(f)
+                except Exception as e:
+                    ck.violation('saved-wallet-unloadable', 'the wallet file left by a save cannot be loaded (%s)%s'
+                                 % (type(e).__name__, ' -- an earlier save had been killed before its switch-over'
+                                    if step % 3 == 0 else ''), rp)
+                    break
                 if wallet_state(w2) != wallet_state(w):
                     ck.violation('load-differs', 'loading the saved wallet does not reproduce key pairs / unused keys / annotations', rp)
                 w2.spent_transaction_outputs = w.spent_transaction_outputs
